@@ -1,6 +1,7 @@
 """Handle representations necessary for informative error messages."""
 import ast
 import inspect
+import itertools
 import re
 import reprlib
 import sys
@@ -256,13 +257,13 @@ def inspect_decorator(
         )
 
     # Go up till a line starts with a decorator
-    decorator_lineno = None  # type: Optional[int]
-    for i in range(lineno, -1, -1):
-        if _DECORATOR_RE.match(lines[i]):
-            decorator_lineno = i
-            break
+    start_candidates = list(
+        itertools.islice(
+            (i for i in range(lineno, -1, -1) if _DECORATOR_RE.match(lines[i])), 3
+        )
+    )
 
-    if decorator_lineno is None:
+    if len(start_candidates) == 0:
         raise SyntaxError(
             "Decorator corresponding to the line {} could not be found in file {}: {!r}".format(
                 lineno + 1, filename, lines[lineno]
@@ -270,15 +271,18 @@ def inspect_decorator(
         )
 
     # Find the decorator end -- it's either a function definition, a class definition or another decorator
-    decorator_end_lineno = None  # type: Optional[int]
-    for i in range(lineno + 1, len(lines)):
-        line = lines[i]
+    end_candidates = list(
+        itertools.islice(
+            (
+                i
+                for i in range(lineno + 1, len(lines))
+                if _DECORATOR_RE.match(lines[i]) or _DEF_CLASS_RE.match(lines[i])
+            ),
+            8,
+        )
+    )
 
-        if _DECORATOR_RE.match(line) or _DEF_CLASS_RE.match(line):
-            decorator_end_lineno = i
-            break
-
-    if decorator_end_lineno is None:
+    if len(end_candidates) == 0:
         raise SyntaxError(
             (
                 "The next statement following the decorator corresponding to the line {} "
@@ -286,6 +290,45 @@ def inspect_decorator(
             ).format(lineno + 1, filename, lines[lineno])
         )
 
+    # A line which looks like the start of a decorator or of a definition may as well be a continuation line of
+    # an expression (starting with the matrix multiplication operator ``@``) or a line of a multi-line string.
+    # The closest candidates are therefore tried out until the text in-between can be parsed as a decorator.
+    first_error = None  # type: Optional[Exception]
+    for decorator_lineno in start_candidates:
+        for decorator_end_lineno in end_candidates:
+            try:
+                return _parse_decorator(
+                    lines=lines,
+                    lineno=lineno,
+                    filename=filename,
+                    decorator_lineno=decorator_lineno,
+                    decorator_end_lineno=decorator_end_lineno,
+                )
+            except (SyntaxError, ValueError) as error:
+                if first_error is None:
+                    first_error = error
+
+    assert first_error is not None
+    raise first_error
+
+
+def _parse_decorator(
+    lines: List[str],
+    lineno: int,
+    filename: str,
+    decorator_lineno: int,
+    decorator_end_lineno: int,
+) -> DecoratorInspection:
+    """
+    Parse the lines between ``decorator_lineno`` and ``decorator_end_lineno`` as a decorator call.
+
+    :param lines: lines of the source file corresponding to the decorator call
+    :param lineno: line index (starting with 0) of one of the lines in the decorator call
+    :param filename: name of the file where decorator is called
+    :param decorator_lineno: line index (starting with 0) where the decorator starts
+    :param decorator_end_lineno: line index (starting with 0) of the first line after the decorator
+    :return: inspected decorator call
+    """
     decorator_lines = lines[decorator_lineno:decorator_end_lineno]
 
     # We need to dedent the decorator and add a dummy decorate so that we can parse its text as valid source code.
